@@ -20,6 +20,6 @@ theorem objects_in_format_strings :
       [("graphs.py", "_process_graph_io_arguments")] := by decide +kernel
 
 /-- non-vacuity: the table is not empty (the translator found the hazards it is expected to find) -/
-example : hazards.length = 19 ∧ (hazards.filter (fun h => h.kind == "dictView")).length = 6 := by decide +kernel
+example : hazards.length = 20 ∧ (hazards.filter (fun h => h.kind == "dictView")).length = 6 := by decide +kernel
 
 end Cnfgen.C07
